@@ -386,10 +386,8 @@ func (c *ctx) prologue() {
 			if !ok || len(ret.Results) != 1 {
 				return true
 			}
-			if call, ok := ret.Results[0].(*ast.CallExpr); ok && fullName(astx.Callee(info, call)) == "fmt.Sprintf" {
-				if s, _ := constStr(fc, call.Args[0]); s == "_%d_%d" {
-					good = rec != nil && rec.Pos() < ret.Pos() && fc.par[ret] == ast.Node(fd.Body)
-				}
+			if c.isHoistedName(fc, ret.Results[0]) {
+				good = rec != nil && rec.Pos() < ret.Pos() && fc.par[ret] == ast.Node(fd.Body)
 			}
 			return true
 		})
@@ -400,7 +398,7 @@ func (c *ctx) prologue() {
 			if !ok || len(ret.Results) != 1 {
 				return true
 			}
-			if call, ok := ret.Results[0].(*ast.CallExpr); ok && fullName(astx.Callee(info, call)) == "fmt.Sprintf" {
+			if c.isHoistedName(fc, ret.Results[0]) {
 				return true
 			}
 			conds := fc.par.Known(ret, fd)
@@ -423,6 +421,23 @@ func (c *ctx) prologue() {
 	} else {
 		c.s.Unk("G12", "exprPrinter.printExpr", "", "not found")
 	}
+}
+
+// isHoistedName: the returned string is a generated variable name built from the expression's source position
+// (literal text and integer components only, e.g. "_" line "_" column), directly or through a helper.
+func (c *ctx) isHoistedName(fc *fileCtx, e ast.Expr) bool {
+	sk := c.skeleton(fc, e, nil, 0)
+	ints := 0
+	for _, t := range sk {
+		switch t.kind {
+		case "int":
+			ints++
+		case "lit":
+		default:
+			return false
+		}
+	}
+	return ints >= 2
 }
 
 // wrapperIdents parses the wrapper opening and lists parameter/result names.
